@@ -88,8 +88,8 @@ theorem C13_hswish_from_config_fixed_witness :
     (∀ q : QObj, qFromConfig qs_quantized_hswish (qGetConfig qs_quantized_hswish q) =
         .ok (qReloaded qs_quantized_hswish q)) ∧
       qFromConfig qs_quantized_hswish
-          (qGetConfig qs_quantized_hswish ⟨"quantized_hswish", qs_quantized_hswish.params⟩) =
-        .ok ⟨"quantized_hswish", qs_quantized_hswish.params⟩ :=
+          (qGetConfig qs_quantized_hswish ⟨"quantized_hswish", qs_quantized_hswish.params, []⟩) =
+        .ok ⟨"quantized_hswish", qs_quantized_hswish.params, []⟩ :=
   ⟨fun q => qFromConfig_getConfig qs_quantized_hswish q
       (C13_quantizers_closed qs_quantized_hswish (by simp [qSpecs])), rfl⟩
 
@@ -118,7 +118,7 @@ theorem C13_quantizer_options_emitted :
 
 /-- `q` with option `k` set to `v` (all other options at their defaults) -/
 def withOption (s : QSpec) (kvs : List (String × PyVal)) : QObj :=
-  ⟨s.name, s.params.map fun p => (p.1, (kvs.lookup p.1).getD p.2)⟩
+  ⟨s.name, s.params.map fun p => (p.1, (kvs.lookup p.1).getD p.2), []⟩
 
 /-- a default quantized_bits with `scale_axis = 0` -/
 def qbitsScaleAxis : QObj := withOption qs_quantized_bits [("scale_axis", .num 0)]
@@ -236,6 +236,71 @@ example :
                             .list [.list [.list [.num 0]], .list [.list [.num 1]]]]
     reshapeMask m = .ok m := by rfl
 
+/-! ## the kernel mask of QConv2D / QConv2DBatchnorm, for every kernel shape
+
+`QConv2D.__init__` stores `np.reshape(mask, (h, w, 1, 1))` with `h, w` the first two dimensions of
+the given array, `get_config` writes `self._mask.tolist()`, `from_config` turns the list back into
+an array and hands it to the constructor.  QConv2DBatchnorm takes `mask` through `**kwargs` and
+hands it to QConv2D's constructor; it inherits both methods. -/
+
+/-- get_config → from_config → constructor gives back the stored mask, for EVERY kernel height and
+    width ≥ 1 — unit dimensions ((1, w), (h, 1), (1, 1)) included — and any scalar entries -/
+theorem C13_mask_roundtrip_all_shapes (E : Env) (h w : Nat) (f : Nat → Nat → PyVal) (hh : 0 < h)
+    (hw : 0 < w) (hs : ∀ i j, (f i j).isScalar = true) :
+    deserArg E .mask (serArg E .mask (.lit (mask4 h w f))) = .ok (.lit (mask4 h w f)) :=
+  readBack_mask E _ (reshapeMask_mask4 h w f hh hw hs)
+
+/-- the constructor on the (h, w) array the user passes: it stores `mask4 h w f` … -/
+theorem C13_mask_constructor_2d (h w : Nat) (f : Nat → Nat → PyVal) (hh : 0 < h) (hw : 0 < w)
+    (hs : ∀ i j, (f i j).isScalar = true) : reshapeMask (mask2 h w f) = .ok (mask4 h w f) :=
+  reshapeMask_mask2 h w f hh hw hs
+
+/-- … and in general: WHATEVER array literal the constructor accepted (2-D, (h, w, 1), (h, w, 1, 1),
+    a mask that broadcasts over the kernel such as (h, 1) or (1, 1)), what it stored is a fixed
+    point of the constructor, so the `readBack` hypothesis of `LayerOK` holds for the `mask`
+    argument of every layer that was built by the constructor -/
+theorem C13_mask_stored_is_fixed_point (E : Env) (v m : PyVal) (h : reshapeMask v = .ok m) :
+    reshapeMask m = .ok m ∧ deserArg E .mask (serArg E .mask (.lit m)) = .ok (.lit m) :=
+  ⟨reshapeMask_idem v m h, readBack_mask E m (reshapeMask_idem v m h)⟩
+
+/-- the reader needs rank ≥ 2: a scalar or a flat list is rejected with ValueError.  This is why a
+    writer that drops a unit axis (e.g. `np.squeeze(self._mask).tolist()`) cannot be read back
+    exactly when the kernel has a unit dimension -/
+theorem C13_mask_rank_lt_2_rejected (v : PyVal) (hv : v.isScalar = true) (t : List PyVal) :
+    (v ≠ .none → reshapeMask v = .error .valueError) ∧
+      reshapeMask (.list (v :: t)) = .error .valueError :=
+  reshapeMask_rank_lt_2 v hv t
+
+/-- both classes have the `mask` constructor argument (QConv2DBatchnorm: forwarded to QConv2D),
+    of kind `mask`, written by `get_config` -/
+theorem C13_mask_params :
+    ∀ s ∈ [ls_QConv2D, ls_QConv2DBatchnorm],
+      ∃ p ∈ s.params, p.name = "mask" ∧ p.emitted = true ∧ p.required = false ∧
+        (match p.kind with | .mask => true | _ => false) = true := by
+  decide
+
+/-- non-vacuity at the unit shapes: (1, 3), (3, 1) and (1, 1) kernels -/
+example :
+    reshapeMask (mask4 1 3 fun _ j => .num j) = .ok (mask4 1 3 fun _ j => .num j) ∧
+    reshapeMask (mask4 3 1 fun i _ => .num i) = .ok (mask4 3 1 fun i _ => .num i) ∧
+    reshapeMask (mask4 1 1 fun _ _ => .bool true) = .ok (mask4 1 1 fun _ _ => .bool true) ∧
+    mask4 1 3 (fun _ j => .num j) =
+      .list [.list [.list [.list [.num 0]], .list [.list [.num 1]], .list [.list [.num 2]]]] :=
+  ⟨reshapeMask_mask4 1 3 _ (by omega) (by omega) (fun _ _ => rfl),
+   reshapeMask_mask4 3 1 _ (by omega) (by omega) (fun _ _ => rfl),
+   reshapeMask_mask4 1 1 _ (by omega) (by omega) (fun _ _ => rfl), rfl⟩
+
+/-- … and what a squeezing writer would have produced for them is rejected -/
+example :
+    reshapeMask (.list [.num 0, .num 1, .num 2]) = .error .valueError ∧
+    reshapeMask (.num 1) = .error .valueError := ⟨rfl, rfl⟩
+
+/-- a mask that broadcasts over the kernel width ((3, 1) given for a 3×3 kernel) is stored as
+    (3, 1, 1, 1) and read back as such -/
+example :
+    reshapeMask (.list [.list [.num 1], .list [.num 0], .list [.num 1]]) =
+      .ok (mask4 3 1 fun i _ => if i = 1 then .num 0 else .num 1) := rfl
+
 /-! ## prediction congruence and the three routes -/
 
 /-- equal views (class, forwarded keyword arguments, read arguments) and equal weights give equal
@@ -287,11 +352,11 @@ theorem C13_table_keys_modelled : ∀ c ∈ customObjects, c ∈ libraryClassNam
 
 /-- `QActivation(quantized_linear())` -/
 def qactLinear : Layer :=
-  ⟨"QActivation", [("name", .str "act")], [("activation", .act (.obj ⟨"quantized_linear", qs_quantized_linear.params⟩))]⟩
+  ⟨"QActivation", [("name", .str "act")], [("activation", .act (.obj ⟨"quantized_linear", qs_quantized_linear.params, []⟩))]⟩
 
 /-- `QActivation(quantized_hswish())` -/
 def qactHswish : Layer :=
-  ⟨"QActivation", [("name", .str "act")], [("activation", .act (.obj ⟨"quantized_hswish", qs_quantized_hswish.params⟩))]⟩
+  ⟨"QActivation", [("name", .str "act")], [("activation", .act (.obj ⟨"quantized_hswish", qs_quantized_hswish.params, []⟩))]⟩
 
 /-- consequence on the routes: the activation dict of `QActivation(quantized_linear())` /
     `QActivation(quantized_hswish())` is resolved through the table; all three routes used to
@@ -307,7 +372,7 @@ theorem C13_qactivation_linear_fixed_witness (cb : QVal → PyVal) :
     `get_quantizer` does not use the table -/
 example (cb : QVal → PyVal) :
     ∃ v, deserQ (env cb) (env cb).quantizerGlobals
-      (serQ (env cb) (.obj ⟨"quantized_linear", qs_quantized_linear.params⟩)) = .ok v := by
+      (serQ (env cb) (.obj ⟨"quantized_linear", qs_quantized_linear.params, []⟩)) = .ok v := by
   exact ⟨_, deserQ_serQ_obj (env cb) _ _ qs_quantized_linear (by rfl)
     (C13_quantizers_closed qs_quantized_linear (by simp [qSpecs])) (by rfl)⟩
 
@@ -336,12 +401,12 @@ theorem C13_adaptive_relu_upper_bound_fixed_witness (cb : QVal → PyVal) :
 
 /-- `quantized_bits(4, 0, 1, alpha=1)` -/
 def qb4 : QObj :=
-  ⟨"quantized_bits", qs_quantized_bits.params.map fun p =>
+  ⟨"quantized_bits", qs_quantized_bits.params.map (fun p =>
     if p.1 == "bits" then (p.1, .num 4) else if p.1 == "symmetric" then (p.1, .num 1)
-    else if p.1 == "alpha" then (p.1, .num 1) else p⟩
+    else if p.1 == "alpha" then (p.1, .num 1) else p), []⟩
 
 theorem qb4_serializable : QSerializable qs_quantized_bits qb4 := by
-  refine ⟨rfl, by decide, by decide, ?_⟩
+  refine ⟨rfl, by decide, by decide, ?_, rfl⟩
   simp only [qs_quantized_bits, List.forall_mem_cons]
   refine ⟨?_, ?_, ?_, ?_, ?_, ?_, ?_, ?_, ?_, ?_, ?_, ?_, ?_, ?_, ?_, ?_⟩ <;>
     first | (intro _; rfl) | (intro h; exact absurd (by decide) h) | simp
@@ -386,7 +451,7 @@ def modelEx : Model :=
 /-- …and every node is covered by `C13_model_roundtrip_predict_partial` -/
 theorem modelEx_ok (cb : QVal → PyVal) : ∀ n ∈ modelEx, NodeOK (env cb) n.node := by
   simp only [modelEx, List.forall_mem_cons]
-  refine ⟨NodeOK.keras _ _ rfl, NodeOK.q _ ls_QDense rfl rfl rfl (denseEx_ok cb), NodeOK.keras _ _ rfl, ?_⟩
+  refine ⟨NodeOK.keras _ _ rfl rfl, NodeOK.q _ ls_QDense rfl rfl rfl (denseEx_ok cb), NodeOK.keras _ _ rfl rfl, ?_⟩
   simp
 
 /-- so the three routes rebuild `modelEx` and the rebuilt model predicts identically, whatever the
@@ -396,5 +461,163 @@ example {W V : Type} [Inhabited V] (cb : QVal → PyVal) :
       ∀ (S : Sem W V) (ws : Nat → W) (inputs : List V),
         predict (env cb) S m' ws inputs = predict (env cb) S modelEx ws inputs :=
   C13_model_roundtrip_predict_partial (env cb) modelEx (modelEx_ok cb)
+
+/-! ## the constructor's post-hoc switch `alpha None → 'auto_po2'` (`_set_trainable_parameter`)
+
+The layer constructors call `_set_trainable_parameter()` on their weight quantizers AFTER the
+quantizer was constructed.  A rebuilt model constructs the quantizer from the config (which already
+says 'auto_po2') and the constructor calls it again.  At the level of the configuration: -/
+
+/-- the switch is idempotent … -/
+theorem C13_set_trainable_idempotent (s : QSpec) (q : QObj) :
+    setTrainable s (setTrainable s q) = setTrainable s q := setTrainable_idem s q
+
+/-- … hence so is everything the constructor does to a single argument: the `normal` hypothesis of
+    `LayerOK` (re-running the constructor changes no read argument) holds for EVERY argument a
+    constructor produced, for every class, every slot and every quantizer -/
+theorem C13_constructor_normalisation_idempotent (E : Env) (spec : LSpec) (k : Kind) (a : Arg) :
+    normLocal E spec k (normLocal E spec k a) = normLocal E spec k a := normLocal_idem E spec k a
+
+/-- the classes that have the switch: the complete list (each of them is generated as a weight
+    quantizer with alpha left at None, as object and as string; bernoulli is random at inference) -/
+theorem C13_trainable_classes_list :
+    (qSpecs.filter fun s => s.trainable != 0).map (·.name) =
+      ["quantized_bits", "bernoulli", "stochastic_ternary", "ternary", "stochastic_binary", "binary",
+       "quantized_linear", "quantized_hswish"] := by
+  decide
+
+/-- concretely, for `quantized_linear()` in a kernel slot: the constructor result says 'auto_po2' and
+    symmetric, its config round trip followed by the constructor gives the very same object -/
+theorem C13_default_alpha_linear_witness :
+    let q0 : QObj := ⟨"quantized_linear", qs_quantized_linear.params, []⟩
+    let q := setTrainable qs_quantized_linear q0
+    q0.args.lookup "alpha" = some .none ∧ q.args.lookup "alpha" = some (.str "auto_po2") ∧
+      (qFromConfig qs_quantized_linear (qGetConfig qs_quantized_linear q)).map
+        (setTrainable qs_quantized_linear) = .ok q := by
+  refine ⟨rfl, rfl, rfl⟩
+
+/-! ## stock Keras layers inside the custom-object scope
+
+The three routes deserialise the WHOLE model with the library's table installed as custom objects,
+and Keras looks a name up among the custom objects first: a table key that is also a name Keras
+resolves itself (its built-in activation names) would replace Keras' function in every stock layer
+that uses the name. -/
+
+/-- no key of the table is a built-in Keras activation name (`hard_sigmoid` is both a Keras
+    activation and a different function exported by qkeras.quantizers: it must stay out of the table) -/
+theorem C13_table_shadows_no_keras_name :
+    ∀ n ∈ kerasActivationNames, customObjects.contains n = false := by
+  decide
+
+/-- hence a stock layer whose identifier strings are Keras activation names comes back with the same
+    config after every route … -/
+theorem C13_keras_node_unshadowed (cb : QVal → PyVal) (cfg : Cfg)
+    (h : ∀ kv ∈ cfg, identifierKeys.contains kv.1 = true → ∀ s, kv.2 = .str s → s ∈ kerasActivationNames) :
+    kerasNodeCfg (env cb) cfg = cfg := by
+  apply kerasNodeCfg_id
+  intro kv hkv hk s hs
+  exact C13_table_shadows_no_keras_name s (h kv hkv hk s hs)
+
+/-- … and is covered by the model round trip (`NodeOK.keras`) -/
+theorem C13_keras_node_ok (cb : QVal → PyVal) (c : String) (cfg : Cfg)
+    (hc : (env cb).isLibraryClass c = false)
+    (h : ∀ kv ∈ cfg, identifierKeys.contains kv.1 = true → ∀ s, kv.2 = .str s → s ∈ kerasActivationNames) :
+    NodeOK (env cb) (.keras c cfg) :=
+  NodeOK.keras c cfg hc (C13_keras_node_unshadowed cb cfg h)
+
+/-- what the model says of a table that did contain such a name: `Activation("hard_sigmoid")` would
+    come back denoting the table's function -/
+theorem C13_shadowing_witness (cb : QVal → PyVal) :
+    let E' : Env := { env cb with customObjects := "hard_sigmoid" :: customObjects }
+    nodeFromConfig E' ⟨"Activation", [("name", .str "a"), ("activation", .str "hard_sigmoid")], [0]⟩ =
+        .ok (.keras "Activation" [("name", .str "a"),
+          ("activation", .dict [("custom_object", .str "hard_sigmoid")])]) ∧
+      nodeFromConfig (env cb) ⟨"Activation", [("name", .str "a"), ("activation", .str "hard_sigmoid")], [0]⟩ =
+        .ok (.keras "Activation" [("name", .str "a"), ("activation", .str "hard_sigmoid")]) := by
+  constructor <;> rfl
+
+/-! ## `get_config` that raises: a plain Python value where the class calls `.tolist()`
+
+`quantized_bits(alpha="auto_po2", post_training_scale=[0.5])` (or `=0.5`) is accepted by the
+constructor (`self.scale = np.array(post_training_scale)`) and quantizes, but
+`get_config` writes `self.post_training_scale.tolist()`: AttributeError for a list / float, so
+`to_json`, `save` and `clone_model` raise for every model that holds such a quantizer
+(known/C13.json C13-qbits-post_training_scale-not-numpy).  With a numpy array / numpy scalar — what
+`from_config` itself produces — all routes work. -/
+
+/-- the (class, argument) pairs whose `get_config` entry goes through `.tolist()` — complete list -/
+def tolistOptions : List (String × String) :=
+  qSpecs.flatMap fun s => s.tolist.map fun k => (s.name, k)
+
+theorem C13_tolist_options_list : tolistOptions = [("quantized_bits", "post_training_scale")] := by
+  decide
+
+/-- `quantized_bits(4, alpha="auto_po2", post_training_scale=<[1/2]>)`; `native` says whether the
+    value is a plain Python list or a numpy array -/
+def qbPts (native : List String) : QObj :=
+  { withOption qs_quantized_bits
+      [("bits", .num 4), ("alpha", .str "auto_po2"), ("symmetric", .bool true),
+       ("post_training_scale", .list [.num (1/2)])] with native := native }
+
+/-- `QDense(3, kernel_quantizer=qbPts native, use_bias=False, kernel_constraint=…)` after its constructor -/
+def densePts (native : List String) : Layer :=
+  ⟨"QDense", [("name", .str "d")],
+   ls_QDense.params.map fun p =>
+     if p.name == "units" then (p.name, .lit (.num 3))
+     else if p.name == "activation" then (p.name, .act (.fn "linear"))
+     else if p.name == "use_bias" then (p.name, .lit (.bool false))
+     else if p.name == "kernel_quantizer" then (p.name, .q (.obj (qbPts native)))
+     else if p.name == "kernel_constraint" then
+       (p.name, .constr (.clip ⟨.num (-1), .num 1, .none, .obj (qbPts native)⟩))
+     else if p.name == "kernel_initializer" then (p.name, .init (.keras heNormal))
+     else if p.name == "bias_initializer" then (p.name, .init (.keras zerosInit))
+     else (p.name, p.default)⟩
+
+/-- the defect: with a plain Python list the quantizer's, the layer's and the model's serialisation
+    raise, so every route fails … -/
+theorem C13_post_training_scale_native_counterexample (cb : QVal → PyVal) :
+    qGetConfigRaises qs_quantized_bits (qbPts ["post_training_scale"]) = true ∧
+      layerGetConfigRaises (env cb) ls_QDense (densePts ["post_training_scale"]) = true ∧
+      rebuild (env cb) [⟨.q (densePts ["post_training_scale"]), [0]⟩] = .error .attributeError := by
+  refine ⟨by decide, rfl, ?_⟩
+  apply rebuild_of_raise
+  rfl
+
+/-- … while the same quantizer holding a numpy array is rebuilt by every route into a model with
+    the same class, forwarded arguments and read arguments (same predictions for every semantics) -/
+theorem C13_post_training_scale_numpy_witness (cb : QVal → PyVal) :
+    ∃ L', rebuild (env cb) [⟨.q (densePts []), [0]⟩] = .ok [⟨.q L', [0]⟩] ∧
+      L'.cls = (densePts []).cls ∧ L'.kwargs = (densePts []).kwargs ∧
+      readArgs ls_QDense L' = readArgs ls_QDense (densePts []) ∧
+      L'.arg "kernel_quantizer" = .q (.obj (qbPts [])) := by
+  refine ⟨_, rfl, rfl, rfl, rfl, rfl⟩
+
+/-- partial: a quantizer whose arguments are numpy values where the class calls numpy methods
+    never makes `get_config` raise … -/
+theorem C13_get_config_total_partial (s : QSpec) (q : QObj) (h : q.native = []) :
+    qGetConfigRaises s q = false :=
+  qGetConfigRaises_of_numpy s q h
+
+/-- … nor does a layer all of whose arguments are such … -/
+theorem C13_layer_get_config_total_partial (E : Env) (spec : LSpec) (L : Layer)
+    (h : ∀ p ∈ spec.params, (L.arg p.name).numpy = true) : layerGetConfigRaises E spec L = false :=
+  layerGetConfigRaises_of_numpy E spec L h
+
+/-- … and then the whole route (serialise, then rebuild) succeeds and predicts identically.  This
+    is `C13_model_roundtrip_predict_partial` with the serialisation step included. -/
+theorem C13_model_rebuild_predict_partial {W V : Type} [Inhabited V] (E : Env) (m : Model)
+    (h : ∀ n ∈ m, NodeOK E n.node) (hr : modelGetConfigRaises E m = false) :
+    ∃ m', rebuild E m = .ok m' ∧
+      ∀ (S : Sem W V) (ws : Nat → W) (inputs : List V),
+        predict E S m' ws inputs = predict E S m ws inputs := by
+  rw [rebuild_of_no_raise E m hr]
+  exact C13_model_roundtrip_predict_partial E m h
+
+/-- the non-vacuity model again, with the serialisation step -/
+example {W V : Type} [Inhabited V] (cb : QVal → PyVal) :
+    ∃ m', rebuild (env cb) modelEx = .ok m' ∧
+      ∀ (S : Sem W V) (ws : Nat → W) (inputs : List V),
+        predict (env cb) S m' ws inputs = predict (env cb) S modelEx ws inputs :=
+  C13_model_rebuild_predict_partial (env cb) modelEx (modelEx_ok cb) rfl
 
 end QKV.Props.C13
